@@ -311,9 +311,6 @@ class HistoryMachine(RuleBasedStateMachine):
         self._failed = False
 
     def do(self, step):
-        if time.time() - getattr(self, "_t0", time.time()) > getattr(self, "_budget", 1e9):
-            self.st.skipped_budget += 1
-            return None
         self.steps.append(step)
         try:
             return self.model.apply(step)
@@ -407,49 +404,69 @@ def _run_job(prop_id, sub, tier, piece, npieces, seed0):
     opened = open_findings(prop_id) if sub.known else {}
     harness = None
 
+    # The budget is enforced BETWEEN Hypothesis runs, never inside a case (a time-dependent case would make generation
+    # irreproducible): the n cases are generated in up to 8 consecutive runs with derived seeds; once the budget is spent the
+    # remaining runs are skipped and the sub-check is reported as inconclusive beyond that point.
+    nchunks = 1 if sub.kind == "enum" else max(1, min(8, n // 20))
+    per = -(-n // nchunks)
     try:
-        if sub.kind == "given":
+        for chunk in range(nchunks):
+            if chunk and time.time() - t0 > budget:
+                st.skipped_budget += per * (nchunks - chunk)
+                break
+            cseed = derive_seed(seed, "chunk", chunk) if chunk else seed
+            if sub.kind == "given":
 
-            def body(case):
-                if time.time() - t0 > budget:
-                    st.skipped_budget += 1
-                    return
-                st.begin(case)
-                fid = sub.known(case) if (sub.known and opened) else None
-                if fid is not None and fid in opened:
-                    st.excluded_known[fid] = st.excluded_known.get(fid, 0) + 1
+                def body(case):
+                    st.begin(case)
+                    fid = sub.known(case) if (sub.known and opened) else None
+                    if fid is not None and fid in opened:
+                        st.excluded_known[fid] = st.excluded_known.get(fid, 0) + 1
+                        try:
+                            sub.run(case, st)
+                        except Violation:
+                            st.known_still_failing[fid] = st.known_still_failing.get(fid, 0) + 1
+                        return
                     try:
                         sub.run(case, st)
-                    except Violation:
-                        st.known_still_failing[fid] = st.known_still_failing.get(fid, 0) + 1
-                    return
-                try:
-                    sub.run(case, st)
-                except Violation as e:
-                    st.failure = (case, str(e))
-                    raise
-                finally:
-                    st.end()
+                    except Violation as e:
+                        st.failure = (case, str(e))
+                        raise
+                    finally:
+                        st.end()
 
-            test = hypothesis.seed(seed)(_settings(n, tier)(given(sub.strategy)(body)))
-            test()
-        elif sub.kind == "enum":
-            try:
-                sub.fn(tier, piece, npieces, st, seed)
-            except Violation as e:
-                if st.failure is None:
-                    st.failure = (st._cur, str(e))
-        else:
-            mach = type(sub.machine.__name__, (sub.machine,), {})
-            mach._stats = st
-            mach._t0, mach._budget = t0, budget
-            run_state_machine_as_test(hypothesis.seed(seed)(mach), settings=_settings(n, tier, sub.steps[tier]))
+                test = hypothesis.seed(cseed)(_settings(per, tier)(given(sub.strategy)(body)))
+                test()
+            elif sub.kind == "enum":
+                try:
+                    sub.fn(tier, piece, npieces, st, seed)
+                except Violation as e:
+                    if st.failure is None:
+                        st.failure = (st._cur, str(e))
+            else:
+                mach = type(sub.machine.__name__, (sub.machine,), {})
+                mach._stats = st
+                run_state_machine_as_test(hypothesis.seed(cseed)(mach), settings=_settings(per, tier, sub.steps[tier]))
     except Violation:
         pass  # recorded in st.failure (the last failing execution = the shrunk one)
     except hypothesis.errors.Flaky as e:  # includes FlakyFailure
         # a case failed once and passed on re-execution: keep the recorded failure, flag it
+        # Reported only if it reproduces outside Hypothesis (3 attempts); an irreproducible failure proves nothing and is counted.
         if st.failure is not None:
-            st.failure = (st.failure[0], "[flaky under re-execution] " + st.failure[1])
+            again = None
+            for _ in range(3):
+                try:
+                    sub.replay(st.failure[0])
+                except Violation as v:
+                    again = str(v)
+                    break
+                except Exception:
+                    break
+            if again is None:
+                st.label("flaky_failure_not_reproduced")
+                st.failure = None
+            else:
+                st.failure = (st.failure[0], "[failed, passed on Hypothesis' re-execution, failed again on replay] " + again)
         else:
             harness = "Flaky: " + str(e)[:500]
     except BaseException as e:  # noqa
